@@ -30,7 +30,8 @@ decreasing_by omega
 the last one -/
 def vlqDigits (i : Nat) : Nat → Bytes
   | 0 => []
-  | k + 1 => UInt8.ofNat ((i / 128 ^ k) % 128 + (if k = 0 then 0 else 128)) :: vlqDigits i k
+  | 1 => [UInt8.ofNat (i % 128)]
+  | k + 2 => UInt8.ofNat ((i / 128 ^ (k + 1)) % 128 + 128) :: vlqDigits i (k + 1)
 
 /-- `stream_serialize_vlq`: `bit_length // 7 + 1` digits (not minimal: 64 is `80 40`). -/
 def vlqLen (i : Nat) : Nat := bitLen i / 7 + 1
